@@ -740,3 +740,34 @@ def replace_at(node, path, func):
     children = list(node[1])
     children[path[0]] = replace_at(children[path[0]], path[1:], func)
     return [node[0], children]
+
+
+# ----------------------------------------------------------------------------------------------------------------------
+# small-scope enumeration: every expression of the evaluation domain up to a number of atoms over a tiny key set
+
+SMALL_ATOMS = (["rc", "1"], ["rc", "2"], ["hint", "501"], ["fc", "901"], ["fc", "902"])
+
+
+def enumerate_small_dom(max_atoms, atoms=SMALL_ATOMS):
+    """
+    All binary-tree expressions with 1..max_atoms leaves over `atoms` and the four composition kinds that lie in the
+    evaluation domain (juxtaposition = one fc key attached to a bare hint or to an rc-carrying operand) and whose
+    validity is not ambiguous.  Binary nodes only; same-kind children are bracketed by the canonical renderer, so the
+    grouping is exactly the one of the AST.
+    """
+
+    def trees(count):
+        if count == 1:
+            for atom in atoms:
+                yield list(atom)
+            return
+        for left_count in range(1, count):
+            for left in trees(left_count):
+                for right in trees(count - left_count):
+                    for kind in KINDS:
+                        yield [kind, [left, right]]
+
+    for count in range(1, max_atoms + 1):
+        for tree in trees(count):
+            if in_evaluation_domain(tree) and validity(tree) != "ambiguous":
+                yield tree
